@@ -211,6 +211,17 @@ type Script struct {
 	Seen   map[int]map[int]*refcodec.Packet // sink -> ttl -> probe
 	Sent   map[int][]Delivered
 	initSeq map[int]uint32
+	// RunTraceroute mode: the target is whatever address the probes go to; routers may be renumbered
+	anyTarget bool
+	routerFn  func(v6 bool, t int) netip.Addr
+}
+
+// TargetOf returns the address that plays the target for scenario sc (given one of its probes).
+func (s *Script) TargetOf(sc *Scn, p *refcodec.Packet) netip.Addr {
+	if s.anyTarget && p != nil {
+		return p.Dst
+	}
+	return sc.Target()
 }
 
 func NewScript(scns ...*Scn) *Script {
@@ -259,7 +270,7 @@ func (s *Script) scnFor(sink *simnet.Sink, p *refcodec.Packet) *Scn {
 		if vk == "tcpparis" {
 			vk = "tcp"
 		}
-		if vk == k && sc.Target() == p.Dst {
+		if vk == k && (s.anyTarget || sc.Target() == p.Dst) {
 			s.bySink[sink.ID] = sc
 			return sc
 		}
@@ -340,7 +351,7 @@ func (s *Script) OnProbe(n *simnet.Net, sink *simnet.Sink, p *refcodec.Packet, r
 		s.Seen[sink.ID] = map[int]*refcodec.Packet{}
 	}
 	s.Seen[sink.ID][t] = p
-	target := sc.Target()
+	target := s.TargetOf(sc, p)
 	var out []simnet.Reply
 	hs, has := sc.Hops[t]
 	atDest := (sc.Dest > 0 && t >= sc.Dest) || (has && hs.AtTarget)
@@ -353,6 +364,9 @@ func (s *Script) OnProbe(n *simnet.Net, sink *simnet.Sink, p *refcodec.Packet, r
 	if !(has && (hs.Silent || hs.LostReply)) {
 		form := hs.Form
 		from := Router(vi.V6, sc.Flow, t)
+		if s.routerFn != nil {
+			from = s.routerFn(p.V == 6, t)
+		}
 		if atDest {
 			from = target
 			if form == "" {
@@ -579,6 +593,12 @@ func HopsKey(hs []Hop) string {
 		}
 	}
 	return sb.String()
+}
+
+// PrepareBases resets the process-wide identifier allocators.
+func PrepareBases(ipid, echo uint32) {
+	packets.VerifSetPacketIDBase(ipid)
+	icmp.VerifSetEchoIDBase(echo)
 }
 
 // Prepare resets process-wide state for an execution and returns the Net with listeners set up.
